@@ -569,4 +569,23 @@ theorem length_after_unlock_shares_index :
 /-- with the returned index the same state has the two requests at slots 0 and 1. -/
 example : reportSlot .appended lateState 0 = some 0 ∧ reportSlot .appended lateState 1 = some 1 := by decide
 
+/-! ### other writers of the record file beside the append (round 7) -/
+
+/-- read from the source on every run, for every call of cmsys.AppendRecord in the repository: no
+other call of the same function that is given the same path creates, truncates, removes, renames or
+rewrites the file (directly, or in the body of the repository function it calls); an in-place slot
+write is only allowed as the exclusive alternative to the append. -/
+theorem source_append_callers_no_side_writer : noSideWriterOf Gen.Lock.appendSideWriters = true := by decide
+
+theorem source_side_writers_covered :
+    Gen.Lock.appendSideWriters.map (·.1) = Gen.Lock.appendCallers.map (·.1) := by decide
+
+/-- what the fact protects: a truncation of the file to a length read earlier (no lock held) removes a
+record whose append has returned — the invariant's `written_at` cannot survive it. -/
+theorem truncate_loses_record (s : Sys) (t i k : Nat) (_hw : s.pc t = .doneOk i) (hk : k ≤ i) :
+    ¬ (({ s with recs := s.recs.take k } : Sys).recs[i]? = some (some t)) := by
+  simp only []
+  rw [List.getElem?_take]
+  simp [Nat.not_lt.mpr hk]
+
 end PttVerif.C14.Props
